@@ -20,6 +20,7 @@ CONSTANTS NReq,            \* requests per behaviour
           FixStale,        \* reply Fcall type cleared when taken from the pool (fix 7)
           FixOrder,        \* Respond unlinks the request only after queueing its reply (fix 8)
           FixChain,        \* flush chains are linked through a field of their own (fix 9a)
+          FixBound,        \* the fid table's own reference is explicit (bind/unbind); close drops it instead of destroying (fix 12c)
           FixClose,        \* Respond does not block on reqout after close; close drops table refs (fix 12)
           SharedTags,      \* client may reuse an outstanding tag for non-flush requests
           HasFlushOp,      \* implementation provides FlushOp
@@ -36,13 +37,13 @@ Async(r) == NReq + r
 NoFid == 0
 
 VARIABLES nreq, rq, reqs, wpc, stack, act, fidref, spc, scur, outq, wire, impl,
-          fc, pool, nfc, cstate, cpc, fdir, sstop,
+          fc, pool, nfc, cstate, cpc, fdir, sstop, bound,
           \* ghost (observation) variables
-          cancelled, badcall, crashed, destroyed, creator, calls, extra, closedn
+          cancelled, badcall, crashed, destroyed, creator, calls, extra, closedn, made
 
 vars == <<nreq, rq, reqs, wpc, stack, act, fidref, spc, scur, outq, wire, impl,
-          fc, pool, nfc, cstate, cpc, fdir, sstop,
-          cancelled, badcall, crashed, destroyed, creator, calls, extra, closedn>>
+          fc, pool, nfc, cstate, cpc, fdir, sstop, bound,
+          cancelled, badcall, crashed, destroyed, creator, calls, extra, closedn, made>>
 
 NullRq == [kind |-> "none", tag |-> 0, fid |-> 0, newfid |-> 0, oldtag |-> 0,
            flush |-> FALSE, work |-> FALSE, resp |-> FALSE, saved |-> FALSE,
@@ -66,14 +67,16 @@ Init ==
   /\ cstate = "open" /\ cpc = "run"
   /\ fdir = [f \in Fids |-> f \in InitFids]
   /\ sstop = FALSE
+  /\ bound = [f \in Fids |-> f \in InitFids]
   /\ cancelled = {} /\ badcall = FALSE /\ crashed = FALSE
   /\ destroyed = [f \in Fids |-> 0]
   /\ creator = [f \in Fids |-> 0]
   /\ calls = <<>>
   /\ extra = [r \in ReqIds |-> FALSE]
   /\ closedn = 0
+  /\ made = [f \in Fids |-> IF f \in InitFids THEN 1 ELSE 0]
 
-ghosts == <<cancelled, badcall, crashed, destroyed, creator, calls, extra, closedn>>
+ghosts == <<cancelled, badcall, crashed, destroyed, creator, calls, extra, closedn, made>>
 
 -----------------------------------------------------------------------------
 (* Client-side well-formedness of the next request (assumption predicates) *)
@@ -118,7 +121,7 @@ Recv(kind, tag, fid, newfid, oldtag) ==
                          ![IF older # 0 THEN older ELSE r].prev = IF older # 0 THEN r ELSE 0]
      /\ reqs' = [reqs EXCEPT ![tag] = r]
      /\ wpc' = [wpc EXCEPT ![r] = IF older = 0 THEN "start" ELSE "queued"]
-  /\ UNCHANGED <<stack, act, fidref, spc, scur, outq, wire, impl, cstate, cpc, fdir, sstop>>
+  /\ UNCHANGED <<stack, act, fidref, spc, scur, outq, wire, impl, cstate, cpc, fdir, sstop, bound>>
   /\ UNCHANGED ghosts
 
 -----------------------------------------------------------------------------
@@ -156,18 +159,20 @@ WStart(r) ==
        ELSE /\ rq' = [rq EXCEPT ![r].work = TRUE]
             /\ wpc' = [wpc EXCEPT ![r] = "dispatch"]
             /\ UNCHANGED <<stack, act>>
-  /\ UNCHANGED <<nreq, reqs, fidref, spc, scur, outq, wire, impl, fc, pool, nfc, cstate, cpc, fdir, sstop>>
+  /\ UNCHANGED <<nreq, reqs, fidref, spc, scur, outq, wire, impl, fc, pool, nfc, cstate, cpc, fdir, sstop, bound>>
   /\ UNCHANGED ghosts
 
 (* worker whose process() returned right after the flushed-path Respond (fixed code): no proc_end *)
 WRet(r) ==
   /\ wpc[r] = "ret" /\ AtBase(r)
   /\ wpc' = [wpc EXCEPT ![r] = "done"]
-  /\ UNCHANGED <<nreq, rq, reqs, stack, act, fidref, spc, scur, outq, wire, impl, fc, pool, nfc, cstate, cpc, fdir, sstop>>
+  /\ UNCHANGED <<nreq, rq, reqs, stack, act, fidref, spc, scur, outq, wire, impl, fc, pool, nfc, cstate, cpc, fdir, sstop, bound>>
   /\ UNCHANGED ghosts
 
 Forward(r, fr, hf, hn, cr, fd) ==  \* the SrvReqOps method is entered; it parks in the scripted implementation
   /\ fidref' = fr /\ fdir' = fd
+  /\ bound' = [f \in Fids |-> IF fidref[f] = 0 /\ fr[f] > 0 THEN FALSE ELSE bound[f]]   \* FidNew: a fresh, unbound fid
+  /\ made' = [f \in Fids |-> made[f] + (IF fidref[f] = 0 /\ fr[f] > 0 THEN 1 ELSE 0)]
   /\ rq' = [rq EXCEPT ![r].hfid = hf, ![r].hnew = hn]
   /\ impl' = [impl EXCEPT ![r] = "called"]
   /\ badcall' = (badcall \/ r \in cancelled)
@@ -178,7 +183,7 @@ Forward(r, fr, hf, hn, cr, fd) ==  \* the SrvReqOps method is entered; it parks 
 
 Refuse(r, fr, hf) ==               \* RespondError(...) by the framework
   /\ fc' = Packed(fc, r, "Rerror")
-  /\ fidref' = fr /\ UNCHANGED fdir
+  /\ fidref' = fr /\ UNCHANGED <<fdir, bound, made>>
   /\ RespEnter(r, r, [rq EXCEPT ![r].hfid = hf])
   /\ wpc' = [wpc EXCEPT ![r] = "end"]
   /\ UNCHANGED <<impl, badcall, calls, creator>>
@@ -209,7 +214,7 @@ WDispatch(r) ==
                                               ![tgt].flushreq = r]
                        ELSE rq
             /\ wpc' = [wpc EXCEPT ![r] = "flush2"]
-            /\ UNCHANGED <<stack, act, fidref, impl, badcall, calls, creator, fdir>>
+            /\ UNCHANGED <<stack, act, fidref, impl, badcall, calls, creator, fdir, bound, made>>
   /\ UNCHANGED <<nreq, reqs, spc, scur, outq, wire, pool, nfc, cstate, cpc, sstop>>
   /\ UNCHANGED <<cancelled, crashed, destroyed, extra, closedn>>
 
@@ -224,14 +229,14 @@ WFlush2(r) ==                  \* flush_status -> flush_act (or Respond at once 
                    /\ UNCHANGED <<stack, act>>
               ELSE /\ wpc' = [wpc EXCEPT ![r] = "flush3o"]
                    /\ UNCHANGED <<rq, stack, act>>
-  /\ UNCHANGED <<nreq, reqs, fidref, spc, scur, outq, wire, impl, fc, pool, nfc, cstate, cpc, fdir, sstop>>
+  /\ UNCHANGED <<nreq, reqs, fidref, spc, scur, outq, wire, impl, fc, pool, nfc, cstate, cpc, fdir, sstop, bound>>
   /\ UNCHANGED ghosts
 
 WFlush3Cancel(r) ==            \* flush_act: r.Respond() on the not-yet-started target
   /\ wpc[r] = "flush3c" /\ AtBase(r)
   /\ RespEnter(r, rq[r].tgt, rq)
   /\ wpc' = [wpc EXCEPT ![r] = "end"]
-  /\ UNCHANGED <<nreq, reqs, fidref, spc, scur, outq, wire, impl, fc, pool, nfc, cstate, cpc, fdir, sstop>>
+  /\ UNCHANGED <<nreq, reqs, fidref, spc, scur, outq, wire, impl, fc, pool, nfc, cstate, cpc, fdir, sstop, bound>>
   /\ UNCHANGED ghosts
 
 (* flush_act with the target in the implementation: FlushOp.Flush(tgt) if provided.
@@ -244,14 +249,14 @@ WFlush3Op(r, cancel) ==
             /\ impl' = [impl EXCEPT ![rq[r].tgt] = "cancelled"]   \* having cancelled it, the implementation does not answer it
        ELSE UNCHANGED <<rq, stack, act, impl>>
   /\ wpc' = [wpc EXCEPT ![r] = "end"]
-  /\ UNCHANGED <<nreq, reqs, fidref, spc, scur, outq, wire, fc, pool, nfc, cstate, cpc, fdir, sstop>>
+  /\ UNCHANGED <<nreq, reqs, fidref, spc, scur, outq, wire, fc, pool, nfc, cstate, cpc, fdir, sstop, bound>>
   /\ UNCHANGED ghosts
 
 (* the op call of a request the implementation has cancelled returns without answering *)
 ImplAbort(r) ==
   /\ wpc[r] = "impl" /\ AtBase(r) /\ impl[r] = "cancelled"
   /\ wpc' = [wpc EXCEPT ![r] = "end"]
-  /\ UNCHANGED <<nreq, rq, reqs, stack, act, fidref, spc, scur, outq, wire, impl, fc, pool, nfc, cstate, cpc, fdir, sstop>>
+  /\ UNCHANGED <<nreq, rq, reqs, stack, act, fidref, spc, scur, outq, wire, impl, fc, pool, nfc, cstate, cpc, fdir, sstop, bound>>
   /\ UNCHANGED ghosts
 
 RKind(k, out) == IF out = "err" THEN "Rerror" ELSE "R" \o k
@@ -265,7 +270,7 @@ ImplRespond(r, out) ==
   /\ fc' = Packed(fc, r, IF out = "partial" THEN "RWalkPartial" ELSE RKind(rq[r].kind, out))
   /\ RespEnter(r, r, rq)
   /\ wpc' = [wpc EXCEPT ![r] = "end"]
-  /\ UNCHANGED <<nreq, reqs, fidref, spc, scur, outq, wire, pool, nfc, cstate, cpc, fdir, sstop>>
+  /\ UNCHANGED <<nreq, reqs, fidref, spc, scur, outq, wire, pool, nfc, cstate, cpc, fdir, sstop, bound>>
   /\ UNCHANGED ghosts
 
 (* ... or returns without answering and answers later from a goroutine of its own *)
@@ -273,7 +278,7 @@ ImplReturn(r) ==
   /\ Late
   /\ wpc[r] = "impl" /\ AtBase(r) /\ impl[r] = "called"
   /\ wpc' = [wpc EXCEPT ![r] = "end"]
-  /\ UNCHANGED <<nreq, rq, reqs, stack, act, fidref, spc, scur, outq, wire, impl, fc, pool, nfc, cstate, cpc, fdir, sstop>>
+  /\ UNCHANGED <<nreq, rq, reqs, stack, act, fidref, spc, scur, outq, wire, impl, fc, pool, nfc, cstate, cpc, fdir, sstop, bound>>
   /\ UNCHANGED ghosts
 
 ImplLate(r, out) ==
@@ -282,7 +287,7 @@ ImplLate(r, out) ==
   /\ impl' = [impl EXCEPT ![r] = "answered"]
   /\ fc' = Packed(fc, r, IF out = "partial" THEN "RWalkPartial" ELSE RKind(rq[r].kind, out))
   /\ RespEnter(Async(r), r, rq)
-  /\ UNCHANGED <<nreq, reqs, wpc, fidref, spc, scur, outq, wire, pool, nfc, cstate, cpc, fdir, sstop>>
+  /\ UNCHANGED <<nreq, reqs, wpc, fidref, spc, scur, outq, wire, pool, nfc, cstate, cpc, fdir, sstop, bound>>
   /\ UNCHANGED ghosts
 
 (* an extra answer (RespondError) to an already answered request whose reply buffer the request
@@ -293,14 +298,14 @@ ImplExtra(r) ==      \* a goroutine of the implementation calls r.RespondError a
   /\ RcOwned(r) /\ ~(spc = "writing" /\ scur = r)
   /\ extra' = [extra EXCEPT ![r] = TRUE]
   /\ fc' = Packed(fc, r, "Rerror")
-  /\ UNCHANGED <<nreq, rq, reqs, wpc, stack, act, fidref, spc, scur, outq, wire, impl, pool, nfc, cstate, cpc, fdir, sstop>>
-  /\ UNCHANGED <<cancelled, badcall, crashed, destroyed, creator, calls, closedn>>
+  /\ UNCHANGED <<nreq, rq, reqs, wpc, stack, act, fidref, spc, scur, outq, wire, impl, pool, nfc, cstate, cpc, fdir, sstop, bound>>
+  /\ UNCHANGED <<cancelled, badcall, crashed, destroyed, creator, calls, closedn, made>>
 
 WEnd(r) ==                     \* proc_end: clear work, remember that no answer was produced
   /\ wpc[r] = "end" /\ AtBase(r)
   /\ rq' = [rq EXCEPT ![r].work = FALSE, ![r].saved = ~rq[r].resp]
   /\ wpc' = [wpc EXCEPT ![r] = "done"]
-  /\ UNCHANGED <<nreq, reqs, stack, act, fidref, spc, scur, outq, wire, impl, fc, pool, nfc, cstate, cpc, fdir, sstop>>
+  /\ UNCHANGED <<nreq, reqs, stack, act, fidref, spc, scur, outq, wire, impl, fc, pool, nfc, cstate, cpc, fdir, sstop, bound>>
   /\ UNCHANGED ghosts
 
 -----------------------------------------------------------------------------
@@ -321,7 +326,7 @@ RUnlink(g, t) ==               \* the conn.Lock section of Respond, as coded
        ELSE /\ reqs' = [reqs EXCEPT ![rq[t].tag] = 0]
             /\ act' = [act EXCEPT ![t].st = IF FixOrder THEN "next" ELSE "post", ![t].cur = rq[t].flushreq, ![t].nextreq = 0]
             /\ UNCHANGED rq
-  /\ UNCHANGED <<nreq, wpc, stack, fidref, spc, scur, outq, wire, impl, fc, pool, nfc, cstate, cpc, fdir, sstop>>
+  /\ UNCHANGED <<nreq, wpc, stack, fidref, spc, scur, outq, wire, impl, fc, pool, nfc, cstate, cpc, fdir, sstop, bound>>
   /\ UNCHANGED ghosts
 
 (* PostProcess: the *Post function chosen by the request type reads the CURRENT type of req.Rc *)
@@ -332,20 +337,26 @@ RPost(g, t) ==
          hf == rq[t].hfid
          hn == rq[t].hnew
          crash == (k = "Attach" /\ rk = "RAttach" /\ hf = NoFid)       \* attachPost: req.Fid.Type on nil
-         inc1 == IF k = "Attach" /\ rk = "RAttach" /\ hf # NoFid THEN [fidref EXCEPT ![hf] = @ + 1] ELSE fidref
-         inc2 == IF k = "Walk" /\ rk = "RWalk" /\ hn # NoFid /\ hn # hf THEN [inc1 EXCEPT ![hn] = @ + 1] ELSE inc1
-         clk  == IF k = "Clunk" /\ rk = "RClunk" /\ hf # NoFid THEN DropRef(inc2, hf) ELSE inc2
+         closedNow == cpc = "done"                                     \* conn.closed
+         \* fids that get the table's reference now, and the one that loses it
+         binds == (IF k = "Attach" /\ rk = "RAttach" /\ hf # NoFid THEN {hf} ELSE {})
+                  \cup (IF k = "Walk" /\ rk = "RWalk" /\ hn # NoFid /\ hn # hf THEN {hn} ELSE {})
+         doBind == IF FixBound THEN {f \in binds : ~closedNow /\ ~bound[f]} ELSE binds
+         unb == IF k = "Clunk" /\ rk = "RClunk" /\ hf # NoFid /\ (~FixBound \/ bound[hf]) THEN {hf} ELSE {}
+         inc  == [f \in Fids |-> fidref[f] + (IF f \in doBind THEN 1 ELSE 0)]
+         clk  == [f \in Fids |-> IF f \in unb /\ inc[f] > 0 THEN inc[f] - 1 ELSE inc[f]]
          d1   == DropRef(clk, hf)
          d2   == DropRef(d1, hn)
          gone == {f \in Fids : fidref[f] > 0 /\ d2[f] = 0} IN
      /\ crashed' = (crashed \/ crash)
      /\ fidref' = d2
+     /\ bound' = [f \in Fids |-> IF f \in gone \/ f \in unb THEN FALSE ELSE IF f \in doBind THEN TRUE ELSE bound[f]]
      /\ fdir' = IF k = "Attach" /\ rk = "RAttach" /\ hf # NoFid THEN [fdir EXCEPT ![hf] = TRUE] ELSE fdir
      /\ destroyed' = [f \in Fids |-> destroyed[f] + (IF f \in gone THEN 1 ELSE 0)]
      /\ rq' = [rq EXCEPT ![t].hfid = NoFid, ![t].hnew = NoFid]
   /\ act' = [act EXCEPT ![t].st = "enq"]
   /\ UNCHANGED <<nreq, reqs, wpc, stack, spc, scur, outq, wire, impl, fc, pool, nfc, cstate, cpc, sstop>>
-  /\ UNCHANGED <<cancelled, badcall, creator, calls, extra, closedn>>
+  /\ UNCHANGED <<cancelled, badcall, creator, calls, extra, closedn, made>>
 
 (* conn.reqout <- req, skipped for requests whose status had the flush bit when Respond was entered *)
 REnq(g, t) ==
@@ -356,7 +367,7 @@ REnq(g, t) ==
      ELSE IF spc = "idle" THEN /\ spc' = "got" /\ scur' = t /\ UNCHANGED outq
      ELSE /\ Len(outq) < Maxpend /\ outq' = Append(outq, t) /\ UNCHANGED <<spc, scur>>
   /\ act' = [act EXCEPT ![t].st = IF FixOrder THEN "unlink" ELSE "next"]
-  /\ UNCHANGED <<nreq, rq, reqs, wpc, stack, fidref, wire, impl, fc, pool, nfc, cstate, cpc, fdir, sstop>>
+  /\ UNCHANGED <<nreq, rq, reqs, wpc, stack, fidref, wire, impl, fc, pool, nfc, cstate, cpc, fdir, sstop, bound>>
   /\ UNCHANGED ghosts
 
 (* Unwinding: after "go nextreq.process()" the loop over the collected flush chain runs; each
@@ -382,7 +393,7 @@ RNext(g, t) ==                 \* resp_next: go nextreq.process(); then the flus
          u == Unwind(g, rq, stack, [act EXCEPT ![t].st = "loop"]) IN
      /\ wpc' = IF nx # 0 THEN [wpc EXCEPT ![nx] = "start"] ELSE wpc
      /\ rq' = u[1] /\ stack' = u[2] /\ act' = u[3]
-  /\ UNCHANGED <<nreq, reqs, fidref, spc, scur, outq, wire, impl, fc, pool, nfc, cstate, cpc, fdir, sstop>>
+  /\ UNCHANGED <<nreq, reqs, fidref, spc, scur, outq, wire, impl, fc, pool, nfc, cstate, cpc, fdir, sstop, bound>>
   /\ UNCHANGED ghosts
 
 -----------------------------------------------------------------------------
@@ -391,8 +402,8 @@ SWrite ==                      \* send_got: SetTag, then blocked in Write until 
   /\ spc = "got"
   /\ spc' = "writing"
   /\ crashed' = (crashed \/ fc[rq[scur].rc].kind = "none")   \* SetTag on a reply that was never packed
-  /\ UNCHANGED <<nreq, rq, reqs, wpc, stack, act, fidref, scur, outq, wire, impl, fc, pool, nfc, cstate, cpc, fdir, sstop>>
-  /\ UNCHANGED <<cancelled, badcall, destroyed, creator, calls, extra, closedn>>
+  /\ UNCHANGED <<nreq, rq, reqs, wpc, stack, act, fidref, scur, outq, wire, impl, fc, pool, nfc, cstate, cpc, fdir, sstop, bound>>
+  /\ UNCHANGED <<cancelled, badcall, destroyed, creator, calls, extra, closedn, made>>
 
 Replies(r) == {i \in 1..Len(wire) : wire[i].req = r}
 
@@ -409,8 +420,8 @@ CRecv ==                       \* the client reads the frame (content as it is N
   /\ cancelled' = IF rq[scur].kind = "Flush" /\ rq[scur].tgt # 0 /\ Replies(rq[scur].tgt) = {}
                     THEN cancelled \cup {rq[scur].tgt} ELSE cancelled
   /\ SenderNext
-  /\ UNCHANGED <<nreq, rq, reqs, wpc, stack, act, fidref, impl, fc, nfc, cstate, cpc, fdir, sstop>>
-  /\ UNCHANGED <<badcall, crashed, destroyed, creator, calls, extra, closedn>>
+  /\ UNCHANGED <<nreq, rq, reqs, wpc, stack, act, fidref, impl, fc, nfc, cstate, cpc, fdir, sstop, bound>>
+  /\ UNCHANGED <<badcall, crashed, destroyed, creator, calls, extra, closedn, made>>
 
 -----------------------------------------------------------------------------
 (* ---- disconnect ---- *)
@@ -418,15 +429,15 @@ ClientClose ==                 \* the client closes its end: recv sees EOF and p
   /\ CanClose /\ cstate = "open" /\ cpc = "run"     \* a Write in progress fails, the sender recycles and selects
   /\ cstate' = "eof" /\ cpc' = "enter"
   /\ IF spc = "writing" THEN SenderNext ELSE UNCHANGED <<spc, scur, outq, pool>>
-  /\ UNCHANGED <<nreq, rq, reqs, wpc, stack, act, fidref, wire, impl, fc, nfc, fdir, sstop>>
+  /\ UNCHANGED <<nreq, rq, reqs, wpc, stack, act, fidref, wire, impl, fc, nfc, fdir, sstop, bound>>
   /\ UNCHANGED ghosts
 
 SWriteClosed ==                \* send_got after the client has gone: the write fails at once
   /\ spc = "got" /\ cstate # "open"
   /\ SenderNext
   /\ crashed' = (crashed \/ fc[rq[scur].rc].kind = "none")
-  /\ UNCHANGED <<nreq, rq, reqs, wpc, stack, act, fidref, wire, impl, fc, nfc, cstate, cpc, fdir, sstop>>
-  /\ UNCHANGED <<cancelled, badcall, destroyed, creator, calls, extra, closedn>>
+  /\ UNCHANGED <<nreq, rq, reqs, wpc, stack, act, fidref, wire, impl, fc, nfc, cstate, cpc, fdir, sstop, bound>>
+  /\ UNCHANGED <<cancelled, badcall, destroyed, creator, calls, extra, closedn, made>>
 
 CloseEnter ==                  \* close_enter: stop the sender, unregister, ConnClosed callback
   /\ cpc = "enter"
@@ -437,16 +448,23 @@ CloseEnter ==                  \* close_enter: stop the sender, unregister, Conn
        ELSE \* conn.done <- true: rendezvous, needs the sender at its select
             /\ spc = "idle" /\ spc' = "gone" /\ UNCHANGED sstop
   /\ cpc' = "destroy" /\ closedn' = closedn + 1
-  /\ UNCHANGED <<nreq, rq, reqs, wpc, stack, act, fidref, scur, outq, wire, impl, fc, pool, nfc, cstate, fdir>>
-  /\ UNCHANGED <<cancelled, badcall, crashed, destroyed, creator, calls, extra>>
+  /\ UNCHANGED <<nreq, rq, reqs, wpc, stack, act, fidref, scur, outq, wire, impl, fc, pool, nfc, cstate, fdir, bound>>
+  /\ UNCHANGED <<cancelled, badcall, crashed, destroyed, creator, calls, extra, made>>
 
-CloseDestroy ==                \* close_destroy: FidDestroy for every fid still in the table (table and counts untouched)
+CloseDestroy ==                \* close_destroy
   /\ cpc = "destroy"
   /\ cpc' = "done"
-  /\ destroyed' = [f \in Fids |-> destroyed[f] + (IF fidref[f] > 0 THEN 1 ELSE 0)]
-  /\ UNCHANGED fidref
+  /\ IF FixBound
+       THEN \* conn.closed := true; every bound fid loses the table's reference: destroyed now if nobody uses it
+            LET d == [f \in Fids |-> IF bound[f] /\ fidref[f] > 0 THEN fidref[f] - 1 ELSE fidref[f]] IN
+            /\ fidref' = d
+            /\ bound' = [f \in Fids |-> FALSE]
+            /\ destroyed' = [f \in Fids |-> destroyed[f] + (IF fidref[f] > 0 /\ d[f] = 0 THEN 1 ELSE 0)]
+       ELSE \* as found: FidDestroy for every fid in the table, table and counts untouched
+            /\ destroyed' = [f \in Fids |-> destroyed[f] + (IF fidref[f] > 0 THEN 1 ELSE 0)]
+            /\ UNCHANGED <<fidref, bound>>
   /\ UNCHANGED <<nreq, rq, reqs, wpc, stack, act, spc, scur, outq, wire, impl, fc, pool, nfc, cstate, fdir, sstop>>
-  /\ UNCHANGED <<cancelled, badcall, crashed, creator, calls, extra, closedn>>
+  /\ UNCHANGED <<cancelled, badcall, crashed, creator, calls, extra, closedn, made>>
 
 -----------------------------------------------------------------------------
 (* Abstraction shared with the harness (harness/srvh Ctl.Abstract): what the gate controller can
@@ -555,6 +573,11 @@ ClosedOnce == closedn <= 1
 DestroyAtMostOnce == \A f \in Fids : destroyed[f] <= 1 + Cardinality({r \in 1..nreq : creator[f] = r /\ FALSE})
 Terminal == /\ cpc = "done" /\ ImplIdle
             /\ \A r \in 1..nreq : wpc[r] \in {"done", "queued"} \/ ~ENABLED Next
+(* C11: each fid is reported destroyed at most once per binding, and after the disconnect, once nothing
+   runs any more, no fid is left *)
+DestroyedOnce == \A f \in Fids : destroyed[f] <= 1 + Cardinality({r \in 1..nreq : rq[r].kind \in {"Attach", "Walk"}})
+DestroyNeverExceeds == \A f \in Fids : destroyed[f] <= made[f]
+AllDestroyedOnce == (cpc = "done" /\ Quiescent /\ ImplIdle) => \A f \in Fids : destroyed[f] = made[f]
 AllReleased == (cpc = "done" /\ Quiescent /\ ImplIdle) => \A f \in Fids : fidref[f] = 0
 (* threads never stuck: in a state where nothing is enabled, every started thread is done *)
 NoStuckThread == (~ENABLED Next) => (\A r \in 1..nreq : wpc[r] \in {"done", "queued"}) /\ (\A g \in Threads : stack[g] = <<>>)
